@@ -237,6 +237,9 @@ MUTANTS = [
 
 # helper text appended for the mutant above (kept separate to keep the table readable)
 EXTRA = {}
+# planted changes whose trigger is narrow enough that the default quick budget (700 histories) is not a reliable catch:
+# run the same check with more histories (thorough tier finds them; said so in DESIGN.md 9.5)
+RUNS = {"c10_single_interval_sequence_memo_ignores_strand": 2500}
 
 
 # Behaviour-preserving refactors: the checks must stay SILENT on these (``./vcheck selftest mutants --benign``).
@@ -397,7 +400,7 @@ def main(argv):
                         missed.append(name)
                         continue
                 what = "seeded change"
-            rc, out, dt = run_check(base, prop, runs=runs)
+            rc, out, dt = run_check(base, prop, runs=runs or RUNS.get(name))
             viol = [l for l in out.splitlines() if l.startswith("VIOLATION property=")]
             herr = [l for l in out.splitlines() if l.startswith("HARNESS-ERROR")]
             status = "CAUGHT" if rc == 1 and viol else ("HARNESS-ERROR" if rc == 2 or herr else "MISSED")
